@@ -38,6 +38,11 @@
                     included) refines the model w.r.t. the non-initializer inputs, keeps them (identities and order), keeps
                     the number of outputs and WF/NoOpFunc; each pass's own side condition (fresh counter above all
                     identities, locality of outputs, ...) is required at the point where it runs.
+                    C05_sequence_checked: the same with EXECUTABLE hypotheses (invb, seq_okb / extra_okb: Proofs19), which the
+                    check evaluates in Coq on every step of every generated sequence.
+     opsets         C05_remove_unused_opsets_keeps_versions (Opsets.v: the term extended by the opset-import tables; the pass
+                    prunes them; every node of every scope, every function domain and the default domain keep resolving to
+                    the same version; the term is unchanged; nothing is added).
    Excluded (known finding, refuted in Coq): RemoveUnusedNodes on BatchNormalization with training_mode=1. *)
 From Coq Require Import ZArith NArith List Bool Lia.
 From IRV Require Import Base.Exn Gen.C05Gen C05.Model C05.Proofs C05.Proofs2 C05.Proofs3 C05.Proofs4 C05.Proofs5 C05.Proofs6
